@@ -84,7 +84,13 @@ class Ctx:
                 subprocess.run(['rm', '-rf', d])
                 os.rename(tmp, d)
                 self._prune_cache()
-            self._facts[config] = Facts(fp)
+            sk = ('facts', fp)
+            if Ctx.SHARED is not None and sk in Ctx.SHARED:
+                self._facts[config] = Ctx.SHARED[sk]
+            else:
+                self._facts[config] = Facts(fp)
+                if Ctx.SHARED is not None:
+                    Ctx.SHARED[sk] = self._facts[config]
             self.configs_used.append(config)
         return self._facts[config]
 
@@ -96,14 +102,32 @@ class Ctx:
         except OSError:
             pass
 
+    # tools/check_all.py runs several properties in one process on one tree and shares the parsed facts, the effect
+    # analysis and the function summaries between them (None: every check is a process of its own)
+    SHARED = None
+
     def eff(self, config='default'):
         if config not in self._eff:
-            self._eff[config] = Effects(self.facts(config))
+            f = self.facts(config)
+            sk = ('eff', id(f))
+            if Ctx.SHARED is not None and sk in Ctx.SHARED:
+                self._eff[config] = Ctx.SHARED[sk]
+            else:
+                self._eff[config] = Effects(f)
+                if Ctx.SHARED is not None:
+                    Ctx.SHARED[sk] = self._eff[config]
         return self._eff[config]
 
     def an(self, config='default'):
         if config not in self._an:
-            self._an[config] = Analyzer(self.facts(config), self.eff(config))
+            f = self.facts(config)
+            sk = ('an', id(f))
+            if Ctx.SHARED is not None and sk in Ctx.SHARED:
+                self._an[config] = Ctx.SHARED[sk]
+            else:
+                self._an[config] = Analyzer(f, self.eff(config))
+                if Ctx.SHARED is not None:
+                    Ctx.SHARED[sk] = self._an[config]
         return self._an[config]
 
     # ------------------------------------------------------------ reporting
